@@ -263,6 +263,34 @@ func c16R2(c *Ctx) {
 	if m < 2 {
 		c.undecided("readLineOnWindows/keeps", "expected the append and the duplicate-overwrite store")
 	}
+	// Windows reader: every byte of the chunk is compared with Ctrl-C before anything else is decided about it
+	var load *ssa.UnOp
+	eachInstr(g, func(in ssa.Instruction) {
+		if u, ok := in.(*ssa.UnOp); ok && u.Op == token.MUL && load == nil {
+			if ia, ok := u.X.(*ssa.IndexAddr); ok {
+				if _, isPhi := ia.Index.(*ssa.Phi); isPhi {
+					load = u
+				}
+			}
+		}
+	})
+	if load == nil {
+		c.lost("per-byte load in readLineOnWindows")
+	}
+	isCCTest := func(x ssa.Instruction) bool {
+		i, ok := x.(*ssa.If)
+		if !ok {
+			return false
+		}
+		op, a, b, okC := cmpFact(normFact(fact{V: i.Cond, Pol: true}))
+		return okC && (op == token.EQL || op == token.NEQ) && sameValue(a, load) && isConstIntV(3)(b)
+	}
+	hitF, pathF := reachAvoid(load, func(x ssa.Instruction) bool {
+		_, isIf := x.(*ssa.If)
+		return isIf && !isCCTest(x)
+	}, isCCTest)
+	c.check(hitF == nil, "readLineOnWindows/ctrl-c-tested-first", c.ipos(load), "the Ctrl-C comparison is the first decision taken on every byte (also inside escape sequences)",
+		"a byte can be classified (escape sequence, newline, ...) before it is compared with Ctrl-C: a Ctrl-C in that position does not interrupt", c.pathStr(pathF)...)
 	// the Ctrl-C edge returns an error in both
 	for _, fn := range []*ssa.Function{f, g} {
 		found := false
@@ -356,10 +384,29 @@ func c16R3(c *Ctx) {
 			}
 		}
 		c.check(junk, "recvLine/strip@junk", c.ipos(ci), "status-line stripping runs in junk-tolerant mode", "status-line stripping runs outside junk-tolerant mode")
+		// and after the cut at the marker: its argument is the cut line
+		cutFirst := true
+		for _, li := range callsIn(f, idIs("bytes.LastIndex")) {
+			if isMarkerExpr(li.Common().Args[1]) && li.Block() != ci.Block() && !domI(li.(ssa.Instruction), ci.(ssa.Instruction)) {
+				// a marker search that the strip does not follow: only acceptable for the Windows branch
+				if !precedes(li.(ssa.Instruction), ci.(ssa.Instruction)) {
+					continue
+				}
+				cutFirst = false
+			}
+		}
+		nCut := 0
+		for _, l := range origins(ci.Common().Args[1], originOpts{}) {
+			if sl, ok := l.V.(*ssa.Slice); ok && sl.Low != nil {
+				nCut++
+			}
+		}
+		c.check(cutFirst && nCut >= 1, "recvLine/strip-after-cut", c.ipos(ci), "the status strings are stripped from the line already cut at its marker", "the status-line stripper runs before the line is cut at its marker: a half status string in front of the marker discards the line")
 	}
 }
 
 func c16R4(c *Ctx) {
+	readLineContinuation(c)
 	f := c.fn("trzszBuffer.readLine")
 	n := 0
 	for _, ci := range callsIn(f, idIs("(*bytes.Buffer).Truncate")) {
